@@ -15,7 +15,7 @@ const sshPkg = "lib/simpleshell"
 
 func init() {
 	register("C13", &propDef{
-		Run: checkC13,
+		Run:         checkC13,
 		Explanation: "Static decision of the structural clauses of C13. (1) Process globals untouched: no store in lib/simpleshell goes through a pointer loaded from a package-level variable (http.DefaultClient, http.DefaultTransport, or any variable of the module); every object configured in Go is allocated or cloned inside the call. (2) Pin per call: whether a fingerprint is configured is decided by comparing ConnConfig.Fingerprint itself with \"\"; on the configured edge the C2 URL's scheme must be https, the verifier is built from this call's fingerprint, and every tls.Config with InsecureSkipVerify is a fresh literal which also sets VerifyConnection to that verifier and is installed, via a cloned transport, in the very client that sends the request; on the other edge nothing weakens ordinary validation. (3) Malformed pin refused: the request is unreachable from the verifier constructor's error edge; the constructor returns its closure only below an exact-length (32) test of the value decoded with base64.StdEncoding from the parameter. (4) Accept edge: inside the verifier every return of nil is control-dependent on the equality edge of a constant-time/bytes comparison of the whole decoded pin with the whole SHA-256 of the DER SubjectPublicKeyInfo of one of this connection's peer certificates; nothing else (session resumption flags, counters) can lead to acceptance. That crypto/tls calls VerifyConnection before application data on every handshake, resumed ones included, is trusted.",
 		Assumptions: []string{"crypto/tls calls Config.VerifyConnection on every handshake (including resumptions) before any application data"},
 	})
